@@ -9,8 +9,9 @@
 #include "c14m.h"
 #include "rkcommon/memory/malloc.h"
 
-extern "C" void tbbstub_set_recycle(int on);
-extern "C" int tbbstub_live_blocks(void);
+// defined by the stub tbbmalloc (lane tbb only, the one lane this scenario runs on)
+extern "C" void tbbstub_set_recycle(int on) __attribute__((weak));
+extern "C" int tbbstub_live_blocks(void) __attribute__((weak));
 
 namespace {
 struct Block
@@ -98,14 +99,15 @@ void worker(int t)
 extern "C" void c14m_run()
 {
   const C14MPlan *p = c14m_plan();
-  tbbstub_set_recycle(p->recycle);
-  int live_before = tbbstub_live_blocks();
+  if (tbbstub_set_recycle)
+    tbbstub_set_recycle(p->recycle);
+  int live_before = tbbstub_live_blocks ? tbbstub_live_blocks() : 0;
   std::vector<std::thread> ths;
   for (int t = 1; t < p->nthreads; t++)
     ths.emplace_back([t]() { worker(t); });
   worker(0);
   for (auto &th : ths)
     th.join();
-  c14m_backend_live(tbbstub_live_blocks() - live_before);
+  c14m_backend_live(tbbstub_live_blocks ? tbbstub_live_blocks() - live_before : 0);
   c14m_done();
 }
